@@ -653,6 +653,16 @@ func init() {
 			}
 			out := make([]*Term, len(s.B))
 			for i, b := range s.B {
+				// a byte that is a table lookup (constant-leaf tree) is converted leaf by leaf and stays canonical
+				if r, ok := T.MapTree(b, 8, func(v uint64) *Term {
+					if byte(v) >= lo && byte(v) <= hi {
+						return T.Const(8, v+delta)
+					}
+					return T.Const(8, v)
+				}); ok {
+					out[i] = r
+					continue
+				}
 				in := T.And(T.Bin(OpULe, T.Const(8, uint64(lo)), b), T.Bin(OpULe, b, T.Const(8, uint64(hi))))
 				out[i] = T.Ite(in, T.Bin(OpAdd, b, T.Const(8, delta)), b)
 			}
@@ -661,4 +671,164 @@ func init() {
 	}
 	models["strings.ToLower"] = mk(true)
 	models["strings.ToUpper"] = mk(false)
+}
+
+// ---- in-memory *os.File (vh.MemFile): Seek / Read / Stat().Size() / Close over symbolic bytes ----
+type memFile struct {
+	data []*Term
+	pos  int
+}
+
+func memFileOf(w *Worker, v Value) *memFile {
+	p, ok := v.(*Value)
+	if !ok || p == nil {
+		return nil
+	}
+	st, ok := (*p).(StructV)
+	if !ok || len(st) == 0 {
+		return nil
+	}
+	if o, ok := st[0].(*Opaque); ok && o.Kind == "memfile" {
+		return o.Data.(*memFile)
+	}
+	return nil
+}
+
+func init() {
+	m := models
+	m[vhPath+"MemFile"] = func(fr *frame, a []Value) Value {
+		w := fr.w
+		ft := fr.fn.Signature.Results().At(0).Type().(*types.Pointer).Elem()
+		st := w.zero(ft).(StructV)
+		st[0] = &Opaque{Kind: "memfile", Data: &memFile{data: byteTerms(w, a[0])}}
+		p := new(Value)
+		*p = st
+		w.assumptions["os.File modelled as an in-memory byte array (Seek, Read, Stat().Size(), Close)"] = true
+		return p
+	}
+	m["(*os.File).Seek"] = func(fr *frame, a []Value) Value {
+		w := fr.w
+		mf := memFileOf(w, a[0])
+		if mf == nil {
+			w.outOfModel("os.File.Seek on a real file")
+		}
+		off := w.concInt(fr, a[1], "seek offset")
+		wh := w.concInt(fr, a[2], "seek whence")
+		np := off
+		switch wh {
+		case 1:
+			np = mf.pos + off
+		case 2:
+			np = len(mf.data) + off
+		}
+		if np < 0 {
+			return Tuple{w.T.Const(64, 0), w.errorsNew(fr, "seek: invalid argument (negative position)")}
+		}
+		old := mf.pos
+		if w.undoOn {
+			w.undo = append(w.undo, undoEntry{f: func() { mf.pos = old }})
+		}
+		mf.pos = np
+		return Tuple{w.T.Const(64, uint64(np)), IfaceV{}}
+	}
+	m["(*os.File).Read"] = func(fr *frame, a []Value) Value {
+		w := fr.w
+		mf := memFileOf(w, a[0])
+		if mf == nil {
+			w.outOfModel("os.File.Read on a real file")
+		}
+		dst := a[1].(SliceV)
+		if dst.Len == 0 {
+			return Tuple{w.T.Const(64, 0), IfaceV{}}
+		}
+		if mf.pos >= len(mf.data) {
+			eof := w.globalAddr(w.E.Prog.ImportedPackage("io").Var("EOF"))
+			return Tuple{w.T.Const(64, 0), *eof}
+		}
+		n := len(mf.data) - mf.pos
+		if dst.Len < n {
+			n = dst.Len
+		}
+		for i := 0; i < n; i++ {
+			w.store(dst.At(i), mf.data[mf.pos+i])
+		}
+		old := mf.pos
+		if w.undoOn {
+			w.undo = append(w.undo, undoEntry{f: func() { mf.pos = old }})
+		}
+		mf.pos += n
+		return Tuple{w.T.Const(64, uint64(n)), IfaceV{}}
+	}
+	m["(*os.File).Close"] = func(fr *frame, a []Value) Value { return IfaceV{} }
+	m["(*os.File).Stat"] = func(fr *frame, a []Value) Value {
+		w := fr.w
+		mf := memFileOf(w, a[0])
+		if mf == nil {
+			w.outOfModel("os.File.Stat on a real file")
+		}
+		tn := w.E.Prog.ImportedPackage("os").Type("fileStat")
+		fst := tn.Type()
+		st := w.zero(fst).(StructV)
+		st[structFieldIndex(fst, "size")] = w.T.Const(64, uint64(len(mf.data)))
+		p := new(Value)
+		*p = st
+		return Tuple{IfaceV{T: types.NewPointer(fst), V: p}, IfaceV{}}
+	}
+	m["(*os.fileStat).Size"] = func(fr *frame, a []Value) Value {
+		p := a[0].(*Value)
+		st := (*p).(StructV)
+		fst := fr.fn.Signature.Recv().Type().(*types.Pointer).Elem()
+		return st[structFieldIndex(fst, "size")]
+	}
+}
+
+func init() {
+	m := models
+	m["(*os.File).Write"] = func(fr *frame, a []Value) Value {
+		w := fr.w
+		mf := memFileOf(w, a[0])
+		if mf == nil {
+			w.outOfModel("os.File.Write on a real file")
+		}
+		ts := byteTerms(w, a[1])
+		old, oldPos := mf.data, mf.pos
+		nd := append([]*Term{}, old...)
+		for len(nd) < mf.pos {
+			nd = append(nd, w.T.Const(8, 0))
+		}
+		nd = append(nd[:mf.pos:mf.pos], ts...)
+		if mf.pos+len(ts) < len(old) {
+			nd = append(nd, old[mf.pos+len(ts):]...)
+		}
+		if w.undoOn {
+			w.undo = append(w.undo, undoEntry{f: func() { mf.data, mf.pos = old, oldPos }})
+		}
+		mf.data = nd
+		mf.pos += len(ts)
+		return Tuple{w.T.Const(64, uint64(len(ts))), IfaceV{}}
+	}
+	// io.Copy prefers src.WriteTo: deliver the rest of the in-memory file with one Write call on the destination
+	m["(*os.File).WriteTo"] = func(fr *frame, a []Value) Value {
+		w := fr.w
+		mf := memFileOf(w, a[0])
+		if mf == nil {
+			w.outOfModel("os.File.WriteTo on a real file")
+		}
+		rest := append([]*Term{}, mf.data[min(mf.pos, len(mf.data)):]...)
+		old := mf.pos
+		if w.undoOn {
+			w.undo = append(w.undo, undoEntry{f: func() { mf.pos = old }})
+		}
+		mf.pos = len(mf.data)
+		if len(rest) == 0 {
+			return Tuple{w.T.Const(64, 0), IfaceV{}}
+		}
+		dst := a[1].(IfaceV)
+		wf := w.E.Prog.LookupMethod(dst.T, nil, "Write")
+		if wf == nil {
+			w.unsupported("WriteTo: destination without Write")
+		}
+		r := w.callSSA(fr, wf, []Value{dst.V, w.bytesToSlice(rest)}, nil).(Tuple)
+		return Tuple{r[0], r[1]}
+	}
 }
